@@ -119,3 +119,11 @@ Example ex_fatal_during_reload :
   let r := run refute_oracle init [LRun BrWatch; LRun BrWatch; LInjSig SigHup; LRun BrSignal; LInjAsync (SndFatal 0); LRun BrWatch] in
   st_pc (fst r) = PStuck /\ st_phase (fst r) = Closing.
 Proof. vm_compute. auto. Qed.
+
+(* a change and, right behind it, a watch error while Run is busy starting up: the reload for the
+   change happens, then the error is still pending and stops the collector *)
+Example ex_change_then_watch_error :
+  let ls := [LRun BrWatch; LInjWatch false; LInjWatch true; LRun BrWatch; LRun BrWatch; LRun BrWatch; LRun BrWatch] in
+  st_watch (fst (run o2 init ls)) = [true] /\ st_pc (fst (run o2 init ls)) = PSelect /\
+  st_pc (fst (run o2 init (ls ++ [LRun BrWatch; LRun BrWatch]))) = PDone DStopped.
+Proof. vm_compute. auto. Qed.
